@@ -168,6 +168,15 @@ func (c *Ctx) callBuiltin(b *ssa.Builtin, args []Value, cc *ssa.CallCommon) Valu
 		if v, ok := c.unsafeBuiltin(b.Name(), args); ok {
 			return v
 		}
+	case "Sizeof", "Alignof":
+		// only reaches here for operands whose type is a type parameter; the instantiation is concrete
+		if cc != nil && len(cc.Args) == 1 {
+			t := cc.Args[0].Type()
+			if b.Name() == "Sizeof" {
+				return c.tb.Const(uint64(c.shared.sizes.Sizeof(t)), 64)
+			}
+			return c.tb.Const(uint64(c.shared.sizes.Alignof(t)), 64)
+		}
 	case "ssa:wrapnilchk":
 		if p, ok := args[0].(PtrV); ok && p.obj == nil {
 			c.goPanic("value method called using nil pointer", nil)
